@@ -31,7 +31,7 @@ impl Prop for C07Prop {
     fn runs(&self, tier: Tier) -> u64 {
         match tier {
             Tier::Quick => 3_500,
-            Tier::Thorough => 120_000,
+            Tier::Thorough => 40_000,
         }
     }
     fn gen(&self, seed: u64, idx: u64, tier: Tier) -> Case {
@@ -39,18 +39,34 @@ impl Prop for C07Prop {
             large_pct: 100,
             n_small: (21, 30),
             n_large: (21, 60),
-            regimes: vec![WeightRegime::AllNan, WeightRegime::Dyadic, WeightRegime::SmallInt, WeightRegime::Nasty],
+            regimes: vec![WeightRegime::AllNan, WeightRegime::Dyadic, WeightRegime::SmallInt, WeightRegime::Nasty, WeightRegime::Tiny, WeightRegime::NearEqual, WeightRegime::MixedScale],
             kinds: AlgoGen::all_kinds(),
             shapes: None,
             lifecycle_pct: 0,
             keyings: 1,
+            boundary_per_mille: 0,
         }
         .gen("C07", seed, idx);
+        if idx % 100 == 99 {
+            // size thresholds and per-worker state need many sources per worker: a sparse graph of > 1000 nodes
+            let mut wr = Rng::new(seed, "workload.huge");
+            let (directed, multi, loops) = crate::gen::kind_from(idx as usize / 100 % 8);
+            let regime = *wr.pick(&[WeightRegime::AllNan, WeightRegime::SmallInt, WeightRegime::Nasty]);
+            let shape = *wr.pick(&[crate::gen::Shape::Tree, crate::gen::Shape::Union, crate::gen::Shape::Path, crate::gen::Shape::SparseRandom]);
+            let (specs, ops) = crate::gen::gen_graph(&mut wr, &crate::gen::GraphOpts { directed, multi, self_loops: loops, n_min: 1030, n_max: 1300, regime, shape: Some(shape), sprinkle: true });
+            case.specs = specs;
+            case.ops = ops;
+            case.params.put("huge", J::Bool(true));
+        }
         let mut rng = Rng::new(seed, "c07.envs");
         let keying = if idx % 3 == 0 { 0 } else { crate::core::rng::mix(seed, 7) | 1 };
-        let k = match tier {
-            Tier::Quick => 6,
-            Tier::Thorough => 9,
+        let k = if idx % 100 == 99 {
+            2
+        } else {
+            match tier {
+                Tier::Quick => 6,
+                Tier::Thorough => 9,
+            }
         };
         // environment 0 is the single-threaded reference; the others are simulated pools of 2..=16 workers
         let mut envs = vec![Env { keying, pool: 1, sched: 0 }];
@@ -94,9 +110,34 @@ impl Prop for C07Prop {
                 }
             }};
         }
+        if case.seed % 4 == 0 {
+            // the same failing searches in every environment of the case (serial reference included)
+            algo::poison_prelude(env, cx);
+        }
         let mut modes = vec![false];
         if weighted_ok {
             modes.push(true);
+        }
+        let huge = n > 400;
+        if huge {
+            // only the centralities: all-pairs output on > 1000 nodes would dominate the run
+            cx.count("probe.huge_graph");
+            for weighted in modes.clone() {
+                let tag = if weighted { "w" } else { "h" };
+                match run!("betweenness_centrality", betweenness::betweenness_centrality(g, weighted, false)) {
+                    Ok(m) => cx.emit(&format!("betweenness.{}", tag), f64map_bits(m)),
+                    Err(e) => cx.emit(&format!("betweenness.{}", tag), format!("Err({:?})", e.kind)),
+                }
+                match run!("closeness_centrality", closeness::closeness_centrality(g, weighted, true)) {
+                    Ok(m) => cx.emit(&format!("closeness.{}", tag), f64map_bits(m)),
+                    Err(e) => cx.emit(&format!("closeness.{}", tag), format!("Err({:?})", e.kind)),
+                }
+            }
+            if env.pool > 1 {
+                cx.count("schedules");
+            }
+            cx.states.push(super::lifecycle::ops_hash(&case.ops));
+            return;
         }
         for weighted in modes {
             let tag = if weighted { "w" } else { "h" };
@@ -114,7 +155,12 @@ impl Prop for C07Prop {
             // a second all_pairs call with a seeded option combination (the same in every environment of the case)
             {
                 let t = if rng.chance(1, 2) { Some(snap.names[rng.below(n)].clone()) } else { None };
-                let c = if rng.chance(1, 2) { Some((1 + rng.below(6)) as f64 / 2.0) } else { None };
+                let c = match rng.below(4) {
+                    0 => None,
+                    1 => Some((1 + rng.below(6)) as f64 / 2.0),
+                    2 => Some((n - 1) as f64 + rng.below(3) as f64),
+                    _ => Some((n as f64) * (1 + rng.below(3)) as f64 / 2.0),
+                };
                 let fo = rng.chance(1, 2) || !wp;
                 match run!("all_pairs", dijkstra::all_pairs(g, weighted, t.clone(), c, fo, true)) {
                     Ok(m) => {
